@@ -496,6 +496,9 @@ def points():
         for y, m, d in ((2023, 1, 31), (2024, 2, 29), (2023, 4, 30)):
             t0 = (calref.days_from_civil(y, m, d) * 86400 + 23 * 3600 + 1800) * US
             POINTS += [t0, t0 + 1800 * US, t0 + 2 * 3600 * US]
+        # year-boundary pairs whose later day of month is the smaller one (the month borrow wraps to December)
+        for y, m, d, hh in ((2022, 12, 20, 10), (2023, 1, 5, 9), (2023, 11, 25, 22), (2024, 1, 10, 3)):
+            POINTS.append((calref.days_from_civil(y, m, d) * 86400 + hh * 3600) * US)
         POINTS = sorted(set(POINTS))
     return POINTS
 
@@ -587,7 +590,9 @@ def plan(tier, seed):
     for loc in locs:
         for ch in seeds.chunks(pts, 4):
             shards.append({"kind": "pairs", "locales": [loc], "left": ch})
-    return [({"ext": 1, "tz": "sys"}, shards)] + ([({"ext": 0, "tz": "sys"}, shards)] if thorough else [])
+    # unit and count come from precise_diff: the instant pairs also run on its pure-Python twin
+    py = shards if thorough else [sh for sh in shards if sh["kind"] == "pairs"] + [sh for sh in shards if sh["kind"] == "words"][::3]
+    return [({"ext": 1, "tz": "sys"}, shards), ({"ext": 0, "tz": "sys"}, py)]
 
 
 def evidence(m, tier, seed):
